@@ -56,3 +56,59 @@ def tt_text(case):
     b.text = case['text']
     build.process_text_transform(b)
     return b.text
+
+
+# ------------------------------------------------------------------ table slot assignment through the real pipeline
+
+def _attr_int(el, name, lo):
+    try:
+        return max(int(el.get(name, '').strip()), lo)
+    except (AttributeError, ValueError):
+        return 1
+
+
+def _tables_of(root):
+    from weasyprint.formatting_structure import boxes
+    out = []
+
+    def walk(b):
+        if isinstance(b, boxes.TableBox):
+            out.append(b)
+        for c in getattr(b, 'children', ()) or ():
+            walk(c)
+    walk(root)
+    return out
+
+
+def _table_record(t):
+    from weasyprint.formatting_structure import boxes
+    groups, kinds = [], []
+    for g in t.children:
+        rows = []
+        for r in g.children:
+            rows.append([[_attr_int(c.element, 'colspan', 1) if c.element is not None and c.element_tag in ('td', 'th') and not _anon(c) else 1,
+                          _attr_int(c.element, 'rowspan', 0) if c.element is not None and c.element_tag in ('td', 'th') and not _anon(c) else 1,
+                          c.grid_x, c.colspan, c.rowspan] for c in r.children])
+        groups.append(rows)
+        kinds.append([g.style['display'][0], bool(g.is_header), bool(g.is_footer)])
+    cols = []
+    for cg in t.column_groups:
+        cols.append([cg.grid_x, [c.grid_x for c in cg.children]])
+    gw = -1
+    grid = getattr(t, 'collapsed_border_grid', None)
+    if grid is not None and grid[0]:
+        gw = len(grid[0][0]) - 1
+    return dict(groups=groups, kinds=kinds, cols=cols, grid_width=gw,
+                ncols=sum(len(c[1]) for c in cols))
+
+
+def _anon(cell):
+    # an anonymous cell shares its parent's element: its own tag is not td/th, or it wraps improper children
+    return cell.element is None or cell.element.tag not in ('td', 'th')
+
+
+def table_slots(case):
+    """case: dict(html) -> list of table records of the box tree right after build_formatting_structure"""
+    from tests.testing_utils import parse_all
+    root = parse_all(case['html'])
+    return [_table_record(t) for t in _tables_of(root)]
